@@ -305,6 +305,9 @@ class CallMixin:
         self.loop_ids = self.loop_ordinals(fdef)
         self.inline_loops = {}
         self.loop_var_types = con.ghost.get("loop_var_types", {})
+        self.stmt_asserts = con.ghost.get("asserts", {})
+        from .engine import Vars as _V
+        _V.types = self.loop_var_types
         self.call_depth = 0
         self.pending = []
         self.paths = 0
@@ -369,7 +372,12 @@ class CallMixin:
                     except Unsupported as ex:
                         self.unsupported.append((con.target, f"ensures[{label}]: {ex}"))
                         continue
-                    ob = self.emit("post", label, o.state, goal)
+                    hfns = con.ensure_hints.get(label, ())
+                    if hfns:
+                        hs_ = [h(cx, result, Vars(o.state.env), **vals) for h in hfns]
+                        ob = self.emit_with_hints("post", label, o.state, goal, hs_)
+                    else:
+                        ob = self.emit("post", label, o.state, goal)
                     self.add_result_probe(ob, result)
                 for r in con.raises:
                     if r.exact and r.when is not None:
